@@ -10,12 +10,21 @@ def strOfHexUtf8 (h : String) : String := String.ofList (charsOfHex h)
 def regKey (h : String) : String :=
   String.ofList ((Request.new.setPath (charsOfHex h)).getPath)
 
+/-- registry key of a request whose Uri-Path options are the given raw segments: `get_path()` -/
+def rawKey (segs : String) : String :=
+  let l := if segs == "_" then [] else (segs.splitOn ",").map bytesOfHex
+  let m := l.foldl (fun (m : Packet) s => m.addOption Request.uriPath s) Packet.new
+  String.ofList ({ Request.new with message := m }).getPath
+
 def parseObsOp (op : String) : Option Op :=
   match words op with
   | ["reg", e, p, t] => some (.reg (nat! e) (regKey p) (bytesOfHex t))
   | ["dereg", e, p, t] => some (.dereg (nat! e) (regKey p) (bytesOfHex t))
   | ["chg", p, m, c] => some (.chg (strOfHexUtf8 p) (nat! m) (c == "1"))
   | ["ack", e, m] => some (.ack (nat! e) (nat! m))
+  | ["ackp", e, m, _] => some (.ack (nat! e) (nat! m))
+  | ["regraw", e, segs, t] => some (.reg (nat! e) (rawKey segs) (bytesOfHex t))
+  | ["deregraw", e, segs, t] => some (.dereg (nat! e) (rawKey segs) (bytesOfHex t))
   | ["limit", l] => some (.limit (nat! l))
   | _ => none
 
